@@ -91,6 +91,16 @@ CHECKS = {
          'explicit-state search over sub_context chains on the implementation, differential against freshly built states',
          'DESIGN.md section 4 C17'),
 
+ 'C04': ('exploration',
+         'Against a 90-line reference encoder (documented semantics): (A) every ordered list of <= 2 rules from an 8-entry menu (dict, regex with group expansion / callable replacement, callables '
+         'consuming 1 and 2 characters, built-in defaults; per-rule protection) x all 72 configurations (6 protections x 6 unknown-character policies x non_ascii_only) x every string of length <= 3/4 '
+         'over 12 symbols (ASCII, %, backslash, precomposed + combining accent, symbols, control, unassigned, astral); (B) every ordered list of <= 3 rule variants x strings of length <= 2/3; every code '
+         'point of both built-in tables alone and next to neighbours; homomorphism on every split; PartialLatexToLatexEncoder on all strings of length <= 3/4 over 13 LaTeX lexemes against "reference + copy one token" '
+         'rule; custom result class; all call sequences of length <= 3/4 of the cached module-level helper vs fresh encoders. Exact output and exact exception behaviour (only ValueError, only under fail).',
+         'Trusted: mc/ref/encoder.py; the built-in tables as data; the library tokenizer for the partial encoder (C11). Zero-width rules excluded (contract: characters consumed).',
+         'bounded-exhaustive strings x rule lists x configurations on the real encoder against a reference model; call-history exploration of the helper cache',
+         'DESIGN.md section 4 C04'),
+
  'C11': ('model_checking',
          'Explicit-state exploration of the real LatexTokenReader: every state (remaining input, configuration) for all words of length '
          '<= 3 (quick) / 4 (thorough) over a 15-symbol alphabet x 6172 configurations (math mode and delimiter, 2^7 enable_* switches, extra group '
